@@ -33,6 +33,12 @@ EXTRA_MODULES = {
     "C10": ["Proofs.C10"],
     "C11": ["Proofs.C11"],
     "C12": ["Proofs.C12"],
+    "C14": ["Proofs.C14"],
+    "C18": ["Proofs.C18"],
+    "C19": ["Proofs.C19"],
+    "C01": ["Proofs.C01"],
+    "C02": ["Proofs.C02"],
+    "C03": ["Proofs.C03"],
     "C20": ["Proofs.C20"],
 }
 for _pid, _mods in EXTRA_MODULES.items():
